@@ -1655,6 +1655,21 @@ func checkEndianDetect(e *Env, m *e1Model) {
 		}
 	}
 	if !found {
+		// the order fixed at compile time from a per-GOARCH constant: it must be this target's (C19 `E4.endian` repeats the
+		// question under every target)
+		if pkRoot := p.Pkgs[load.PkgRoot]; pkRoot != nil {
+			if chosen := compileTimeByteOrder(pkRoot); chosen != "" {
+				want := "little"
+				if bigEndianGOARCH[p.GOARCH] {
+					want = "big"
+				}
+				found = true
+				r.Check(chosen == want, "E1.endian", "init/compile-time-byte-order", "", "the byte order chosen at compile time is the target's ("+want+"-endian)",
+					"the package initialisation chooses "+chosen+"-endian argument words at compile time for "+p.GOARCH+", which is "+want+"-endian: high and low argument words are exchanged")
+			}
+		}
+	}
+	if !found {
 		r.Unknown("E1.endian", "init/byte-order-detection", "", "byte-order detection switch not found")
 	}
 	// no write to nativeEndian outside init (non-test code)
